@@ -98,6 +98,9 @@ func addLifeStuff(r rng, p *sdl.Program) {
 	ni := len(p.Instances)
 	for i := 0; i < nr; i++ {
 		t := &sdl.Type{Name: fmt.Sprintf("%sT%d", p.ID, base+i), Role: "runner", OrderClass: pick(r, orderClasses), Init: r.p(0.5), Lazy: r.p(0.25)}
+		if r.p(0.12) {
+			t.OrderClass = "marker"
+		}
 		p.Types = append(p.Types, t)
 		cnt := 1
 		if r.p(0.3) {
@@ -239,6 +242,9 @@ func genConfig(r rng, seed uint64, id string, merge bool) *sdl.Program {
 		}
 		if s.Kind == "sim" {
 			s.OrderClass = pick(r, orderClasses)
+			if r.p(0.12) {
+				s.OrderClass = "marker"
+			}
 			s.Order = pick(r, []int{-3, 0, 0, 1, 2})
 		}
 		if len(s.Doc) == 0 {
